@@ -86,6 +86,8 @@ impl OperationControl for Repeat {
         let mut positions = Vec::new();
         let bound = self.max.min(matcher.search.len() - position + 1);
         let mut p = position;
+        // the number of entries the stack of the greedy iterator may hold
+        let mut stack_bound = bound;
         if self.greedy {
             // Prime the arrays first with iterators up to the maximum length,
             // stopping if there is no match
@@ -99,6 +101,8 @@ impl OperationControl for Repeat {
                 // add a match at the current position if zero occurrences are allowed
                 iterators.push(Box::new(std::iter::once(position)));
                 positions.push(p);
+                // this entry occupies a slot of the stack, but is not a repetition
+                stack_bound += 1;
             }
             for _i in 0..bound {
                 let mut it = self.operation.matches_iter(matcher, p);
@@ -120,7 +124,7 @@ impl OperationControl for Repeat {
                     self.operation.as_ref(),
                     iterators,
                     positions,
-                    bound,
+                    stack_bound,
                     self.min,
                 ),
             )))
